@@ -183,7 +183,12 @@ fn replay_inner(id: &str, hist: &[Json]) -> Json {
                         }
                     };
                     if let Some((bp, br)) = &blk {
-                        let ty = InstrSeqType::new(&mut m.types, bp, br);
+                        // every other built function asks for a type that is already there first (`existing` must hand back
+                        // what `new` would: never an entry type, which is not written to the type section)
+                        let ty = match if funcs.len() % 2 == 0 { InstrSeqType::existing(&m.types, bp, br) } else { None } {
+                            Some(t) => t,
+                            None => InstrSeqType::new(&mut m.types, bp, br),
+                        };
                         let mut body = b.func_body();
                         for t in bp {
                             push(&mut body, t);
